@@ -145,6 +145,11 @@ func (r *RequestContext) Cookie(name string) string {
 }
 
 func (r *RequestContext) Body() any {
+	// as for requests received via HTTP, there is nothing to decode if there is no body
+	if len(r.reqRawBody) == 0 {
+		return ""
+	}
+
 	if r.savedBody == nil {
 		decoder, err := contenttype.NewDecoder(r.Header("Content-Type"))
 		if err != nil {
